@@ -243,12 +243,19 @@ def transparent (R : RParser) (t : TypeId) (name : List Char) (sattrs : List (Li
     answers the tag and the rule's `preserve_whitespace` -/
 def elemRule (R : RParser) (D : ToDom) (t : TypeId) (a : Attrs) : Option (String × WS) :=
   match D.node t a with
-  | .el name sattrs [.hole] => (nodeRule R t a name sattrs).map (fun pw => (lowerName name, pw))
+  | .el name sattrs [.hole] =>
+    if selfClosing.contains name then none else (nodeRule R t a name sattrs).map (fun pw => (lowerName name, pw))
   | .el name sattrs [.el name2 sattrs2 [.hole]] =>
-    if transparent R t name2 sattrs2 && !listTags.contains (lowerName name) then
+    if transparent R t name2 sattrs2 && !listTags.contains (lowerName name) && !selfClosing.contains name then
       (nodeRule R t a name sattrs).map (fun pw => (lowerName name, pw))
     else none
   | _ => none
+
+/-- the node is emitted with an inner element around its content (`["pre", ["code", 0]]`) -/
+def isWrapper (D : ToDom) (t : TypeId) (a : Attrs) : Bool :=
+  match D.node t a with
+  | .el _ _ [.el _ _ [.hole]] => true
+  | _ => false
 
 /-- a leaf node is emitted as an element without content hole and read back by a rule for its type -/
 def leafRule (R : RParser) (D : ToDom) (t : TypeId) (a : Attrs) : Option String :=
@@ -317,12 +324,8 @@ def nodeOk (R : RParser) (D : ToDom) (opts : Opts) (pt : TypeId) : Node → Bool
      | none => false
      | some (tag, pw) =>
        let o := wsOptionsFor (R.P.wsPre t) pw opts
-       kidsOk R D o t none kids && lastOk o kids &&
-       (!listTags.contains tag || kids.all (fun k => match k with
-          | .elem t' a' _ _ => (match elemRule R D t' a' with
-              | some (tag', _) => !listTags.contains tag'
-              | none => true)
-          | _ => true)))
+       kidsOk R D o t none kids && lastOk o kids && (!isWrapper D t a || kids.all Node.isLeaf) &&
+       (!listTags.contains tag || kids.all (fun k => !listTags.contains (prevTag R D k))))
 def kidsOk (R : RParser) (D : ToDom) (opts : Opts) (pt : TypeId) (prev : Option (Node × String)) : List Node → Bool
   | [] => true
   | k :: ks =>
@@ -343,5 +346,16 @@ def rtOk (R : RParser) (D : ToDom) (doc : Node) : Bool :=
      t == R.P.S.top && ms.isEmpty && attrsEq (computeAttrs (R.P.S.nodeType t).attrs []) a &&
        kidsOk R D {} t none kids && lastOk {} kids
    | _ => false)
+
+mutual
+/-- no node of the tree carries a mark -/
+def noMarks : Node → Bool
+  | .text _ m => m.isEmpty
+  | .leaf _ _ m => m.isEmpty
+  | .elem _ _ m kids => m.isEmpty && noMarksList kids
+def noMarksList : List Node → Bool
+  | [] => true
+  | n :: ns => noMarks n && noMarksList ns
+end
 
 end PM.RoundTrip
